@@ -9,9 +9,10 @@
                            durations
     util/duration-parse.hpp `parse_single_duration` / `parse_duration`
 
-  The model follows the code *as written*, including the places where the code writes before
-  it throws (numeric suffix check after `from_chars` has stored the value; `t = {}` and the
-  running sum of a duration; `v.resize` and element-wise stores of a vec).
+  The model follows the code *as written*: every leaf setter parses into a local and assigns
+  to the field only after all checks have passed (numbers: error code, then trailing-characters
+  check; durations: every component incl. the range checks; vec: every element), so a leaf is
+  written exactly when the setter returns normally.
 
   Strings are `List Char` (the C++ works on UTF-8 bytes; every delimiter the code looks for is
   ASCII, so splitting on characters and on bytes coincide).  The tables (`Env`, `DurCfg`) are
@@ -83,9 +84,6 @@ inductive Leaf (R : Type) where
   | e (v : Int)
   | d (ticks : Int)
   | v (xs : List R)
-  /-- a vec that was resized to `n` and whose first `done.length` elements were stored before
-      an element failed; the remaining elements are indeterminate (fresh Eigen storage). -/
-  | vpart (n : Nat) (done : List R)
   deriving DecidableEq, Repr, Inhabited
 
 inductive Err where
@@ -137,8 +135,8 @@ def parseInt (lo hi : Int) (s : Str) : NumRes Int :=
 /-- What the duration code needs from the scalar type besides field arithmetic. -/
 class DurScalar (R : Type) where
   ofInt : Int → R
-  /-- `static_cast<int64_t>(x)`: truncation toward zero (undefined behaviour in C++ when the
-      value does not fit; see `Props.C18` for the hypothesis this forces). -/
+  /-- `static_cast<int64_t>(x)`: truncation toward zero.  Only reached for values strictly
+      inside the `int64` range (`parseSingle` rejects everything else before rounding). -/
   trunc : R → Int
 
 section dur
@@ -167,6 +165,26 @@ def chronoRound (unitNs resNs : Nat) (v : R) : Int :=
     let d1 := ofInt t1 * den - v
     if d0 == d1 then (if t0 % 2 = 0 then t0 else t1) else if d0 < d1 then t0 else t1
 
+/-- `duration<double, Period>{d}.count()`: the value in units of the target resolution, as a
+    floating-point number (same `duration_cast` arithmetic as inside `chrono::round`). -/
+def durCount (unitNs resNs : Nat) (v : R) : R :=
+  if resNs ≤ unitNs then v * ofInt (unitNs / resNs : Nat) else v / ofInt (resNs / unitNs : Nat)
+
+/-- `numeric_limits<int64_t>::lowest()` / `max()` (`Rep` of every `std::chrono` typedef). -/
+def repMin : Int := -9223372036854775808
+def repMax : Int := 9223372036854775807
+
+/-- The lambda `add` of `parse_single_duration`: reject counts that are NaN / infinite / not
+    strictly inside the range of `Rep` (compared as `double`: `static_cast<double>(max) = 2⁶³`),
+    round, reject a sum that would overflow, add. -/
+def durAdd (unitNs resNs : Nat) (v : R) (acc : Int) : Option Int :=
+  let count := durCount unitNs resNs v
+  if decide ((ofInt repMin : R) < count) && decide (count < (ofInt (repMax + 1) : R)) then
+    let r := chronoRound unitNs resNs v
+    if (if 0 ≤ r then decide (acc ≤ repMax - r) else decide (repMin - r ≤ acc)) then some (acc + r)
+    else none
+  else none
+
 def DurCfg.unit? (cfg : DurCfg) (u : Str) : Option Nat :=
   (cfg.units.find? (·.1.toList == u)).map (·.2)
 
@@ -183,7 +201,10 @@ def parseSingle (cfg : DurCfg) (resNs : Nat) (parseReal : Str → NumRes R) (acc
       let after := rest.dropWhile (fun c => !cfg.stop.contains c)
       match cfg.unit? units with
       | none => .error .durUnits
-      | some u => .ok (acc + chronoRound u resNs v, after)
+      | some u =>
+        match durAdd u resNs v acc with
+        | none => .error .durValue          -- `invalid_duration_value`, `result_out_of_range`
+        | some acc' => .ok (acc', after)
 
 /-- `parse_duration(t, s)`: `while (!s.empty()) s = parse_single_duration(t, s);`.
     Returns the value `t` holds when the loop ends or throws. -/
@@ -206,7 +227,8 @@ def pieces : Nat → Str → List Str
   | 0, _ => []
   | n + 1, s => (splitKey s ',').1 :: pieces n (splitKey s ',').2
 
-/-- Element-wise stores of `set_param(vec&, s)`; returns the stored prefix and the error. -/
+/-- Element-wise stores into the temporary of `set_param(vec&, s)`; returns the parsed prefix
+    and the error. -/
 def setVecElems {R} (parseReal : Str → NumRes R) : List Str → List R → List R × Option Err
   | [], done => (done, none)
   | p :: ps, done =>
@@ -228,8 +250,8 @@ def setLeaf (env : Env) (cfg : DurCfg) (parseReal : Str → NumRes R) (k : Kind)
     -- no `assert_key_empty`: a sub-key of a vec is ignored by the code
     let n := value.count ',' + 1
     match setVecElems parseReal (pieces n value) [] with
-    | (xs, none) => (some (.v xs), none)
-    | (xs, some e) => (some (.vpart n xs), some e)
+    | (xs, none) => (some (.v xs), none)     -- `v = std::move(w)` after the loop
+    | (_, some e) => (none, some e)
   | .struct _ => (none, some .unsupported)
   | .other _ => (none, some .unsupported)
   | .bool =>
@@ -242,15 +264,15 @@ def setLeaf (env : Env) (cfg : DurCfg) (parseReal : Str → NumRes R) (k : Kind)
     else match parseInt lo hi value with
       | .invalid => (none, some .numInvalid)
       | .range => (none, some .numRange)
-      | .ok v [] => (some (.i v), none)
-      | .ok v (_ :: _) => (some (.i v), some .numSuffix)   -- stored, then `Invalid suffix`
+      | .ok v [] => (some (.i v), none)                    -- `f = value` is the last statement
+      | .ok _ (_ :: _) => (none, some .numSuffix)
   | .real =>
     if !key.isEmpty then (none, some .indexed)
     else match parseReal value with
       | .invalid => (none, some .numInvalid)
       | .range => (none, some .numRange)
       | .ok v [] => (some (.r v), none)
-      | .ok v (_ :: _) => (some (.r v), some .numSuffix)
+      | .ok _ (_ :: _) => (none, some .numSuffix)
   | .enum name =>
     if !key.isEmpty then (none, some .indexed)
     else match (env.enumTable name).find? (·.1.toList == value) with
@@ -259,9 +281,10 @@ def setLeaf (env : Env) (cfg : DurCfg) (parseReal : Str → NumRes R) (k : Kind)
   | .dur res =>
     if !key.isEmpty then (none, some .indexed)
     else
-      -- `parse_duration(t = {}, s.value)`: `t` is zeroed first, components are added in place
+      -- `Duration value{}; parse_duration(value, s.value); t = value;`
       match parseDuration cfg res parseReal value.length 0 value with
-      | (t, e) => (some (.d t), e)
+      | (t, none) => (some (.d t), none)
+      | (_, some e) => (none, some e)
 
 /-! ### Table-driven dispatch -/
 
@@ -278,7 +301,7 @@ def addressed (env : Env) : Nat → Kind → Path → Str → Option (Path × Ki
     | some e => addressed env fuel e.kind (path ++ [e.member]) (splitKey key).2
   | _ + 1, k, path, key => some (path, k, key)
 
-/-- Effect of a leaf setter on the store: the store (if any) happens before the throw. -/
+/-- Effect of a leaf setter on the store. -/
 def applyLeaf (st : Store R) (p : Path) (w : Option (Leaf R) × Option Err) : Store R × Option Err :=
   match w with
   | (some l, e) => (st.set p l, e)
